@@ -40,7 +40,9 @@ CLAIM = {
              "keeps the cap and Speak first; a turn invokes T2 ≤ 2 and ≤ 1 + max 0 max_rag_loops times; the utterance has ≤ max 0 budget whitespace tokens "
              "(proved down to str.split/' '.join on code points) and the reported count is exact; parse_and_validate never raises (json.loads an oracle "
              "that may fail, guard read from the AST) and accepts only a single JSON object with the documented keys and size limits; "
-             "schema constants and enforcement sites agree (decide over tables regenerated from the source)."),
+             "schema constants and enforcement sites agree (decide over tables regenerated from the source); the line a turn emits "
+             "(_sanitize_utterance ∘ speak/llm_speak) stays within the budget for every rule of the regenerated _UTTER_SANITIZE_RULES table "
+             "(C13_turn_line_budget; regex matching an oracle constrained by the table's token-minimal match per pattern)."),
     "note": ("max_tokens=0 (falsy) on the Speak op falls back to the agent cap (C13_speak_budget_zero_quirk; outside validated configs, t3.tokens ≥ 1). "
              "The schema says reflection is a boolean while the sanitiser also accepts boolean-like strings/0/1 and coerces them (documented in its docstring). "
              "Purity of deliberate/rag_once/speak (no mutation of the bundle/plan, same output on a second call, bundle sequences) is covered by "
@@ -62,7 +64,10 @@ MODELLED = {
                                             "_normalize_retrieved_result", "_refined_intent", "rag_once"],
     "clematis/engine/stages/t3/dialogue.py": ["_tokenize", "_truncate_to_tokens", "_first_speak_op", "speak", "llm_speak"],
     "clematis/engine/policy/sanitize.py": ["_strip_triple_fences", "parse_and_validate", "_coerce_bool"],
+    "clematis/engine/orchestrator/core.py": ["_sanitize_utterance"],
 }
+TABLES = ["t3consts", "utterrules"]
+DRIVER_MODULES = ["HT3"]
 TRUSTED = ["modelled, not verified: CPython str.split/strip/lower/format, json.loads, list.sort on total preorders; "
            "IEEE-754 comparison laws for Float (the proofs are over any lawful NaN-aware carrier)"]
 
@@ -791,6 +796,126 @@ class SpeakComp(Component):
 
 
 # --------------------------------------------------------------------------
+# c13.line  (the line a turn emits = _sanitize_utterance ∘ speak / llm_speak)
+# --------------------------------------------------------------------------
+
+_RULES_CACHE: dict = {}
+
+
+def utter_rules():
+    """[(tag, compiled pattern, replacement)] read from the SOURCE of the orchestrator (same reader as the table)."""
+    if "r" not in _RULES_CACHE:
+        import re as _re
+        from harness.core import REPO
+        from harness.tables.utterrules import read_rules
+        try:
+            _RULES_CACHE["r"] = [(t, _re.compile(src, fl), rp) for t, src, fl, rp in read_rules(REPO)]
+        except Exception:
+            _RULES_CACHE["r"] = []
+    return _RULES_CACHE["r"]
+
+
+LEAKS = ["I'm Qwen", "Iam Qwen", "i 'm qwen", "I am Qwen", "I'M QWEN", "I am Qwen, a large language model developed by Alibaba Cloud",
+         "I do not store or retain seeded memories", "I am Clematis. I am Clematis. I am Clematis.",
+         "I am Clematis I am Clematis, I am Clematis!", "I'm Qwen I'm Qwen I'm Qwen"]
+WORDS = ["hello", "there", "well", "ok", "so", "fine.", "(", "x"]
+
+
+def gen_leak_text(rng: random.Random) -> str:
+    """text containing material the rewrite rules match: generated from each rule's pattern (verified with `re`),
+    or a known leak phrase, embedded among ordinary words, sometimes glued to punctuation."""
+    from harness.lib import rxgen
+    parts = [rng.choice(WORDS) for _ in range(rng.choice([0, 0, 1, 2, 3]))]
+    for _ in range(rng.choice([1, 1, 2, 3])):
+        rules = utter_rules()
+        m = None
+        if rules and rng.random() < 0.6:
+            tag, pat, _ = rng.choice(rules)
+            try:
+                m = rxgen.minimal(pat.pattern, pat.flags) if rng.random() < 0.4 else rxgen.gen(pat.pattern, pat.flags, rng)
+                if not pat.fullmatch(m):
+                    m = None
+            except Exception:
+                m = None
+        if m is None:
+            m = rng.choice(LEAKS)
+        if rng.random() < 0.15:
+            m = rng.choice(["(", '"']) + m + rng.choice([")", ".", '"'])
+        parts.append(m)
+        parts += [rng.choice(WORDS) for _ in range(rng.choice([0, 0, 1, 2]))]
+    return " ".join(parts)
+
+
+def boundary_budget(rng: random.Random, text: str) -> int:
+    n = len(text.split())
+    return rng.choice([n, n, n - 1, n + 1, n - 2, 2, 3, 4, 1])
+
+
+class LineComp(Component):
+    """llm_speak / speak truncate to the budget, then the orchestrator's utterance filter rewrites the text: the emitted
+    line must still be within the budget.  Real `llm_speak`/`speak` composed with the real `_sanitize_utterance`."""
+    name = "c13.line"
+    budget = {"quick": 1500, "thorough": 40000, "search": 15000}
+
+    def gen(self, rng, i):
+        text = gen_leak_text(rng)
+        return {"text": text, "budget": boundary_budget(rng, text), "style": rng.choice(["", "", "", "calm", "I"]),
+                "llm": rng.random() < 0.7}
+
+    @guarded
+    def impl(self, case):
+        from clematis.engine.stages.t3 import dialogue as D
+        from clematis.engine.types import Plan
+        import clematis.engine.orchestrator.core as core
+        plan = Plan(version="t3-plan-v1", reflection=False, ops=build_ops([["speak", "ack", [], case["budget"]]]),
+                    request_retrieve=None)
+        db = {"version": "t3-dialog-bundle-v1", "now": "t", "agent": {"id": "A", "style_prefix": case["style"], "caps": {"tokens": case["budget"]}},
+              "text": {"input": "hi", "labels_from_t1": []}, "retrieved": [],
+              "dialogue": {"template": case["text"].replace("{", "{{").replace("}", "}}")}}
+        if case["llm"]:
+            utter, m = D.llm_speak(db, plan, _Adapter(case["text"]))
+        else:
+            utter, m = D.speak(db, plan)
+        line, meta = core._sanitize_utterance(SNS(turn_id=1, now=None), "A", "llm" if case["llm"] else "rulebased", utter)
+        return {"utter": utter, "line": line, "n": len(line.split()) if isinstance(line, str) else -1,
+                "rewritten": meta is not None, "patterns": list((meta or {}).get("patterns", []))}
+
+    @safe_request
+    def request(self, case):
+        io = self.impl(case)
+        return {"c": "c13.tokcount", "s": cps(io["line"])}
+
+    def compare(self, case, impl_out, model_out):
+        if isinstance(impl_out, dict) and "n" in impl_out:
+            impl_out = impl_out["n"]
+        return super().compare(case, impl_out, model_out)
+
+    def monitor_requests(self, case, io):
+        if raised(io):
+            return []
+        return [("line_within_budget", {"c": "c13.speak.mon", "utter": cps(io["line"]), "opTok": int(case["budget"]) if case["budget"] else "falsy",
+                                        "agentTok": int(case["budget"])})]
+
+    def monitors(self, case, io):
+        if raised(io):
+            return RAISED_MON
+        b = max(0, case["budget"])
+        return [("line_tokens_le_budget", io["n"] <= b, f"line {io['line']!r} has {io['n']} tokens, budget {case['budget']} (utterance {io['utter']!r})"),
+                ("filter_never_adds_tokens", io["n"] <= len(io["utter"].split()),
+                 f"utterance {io['utter']!r} ({len(io['utter'].split())} tokens) became {io['line']!r} ({io['n']} tokens)")]
+
+    def tags(self, case, io):
+        if raised(io):
+            return ["raised"]
+        t = {"rule:" + p for p in io["patterns"]} or {"unchanged"}
+        if io["n"] == case["budget"]:
+            t.add("at_budget")
+        if len(io["utter"].split()) == case["budget"] and io["rewritten"]:
+            t.add("rewritten_at_budget")
+        return sorted(t)
+
+
+# --------------------------------------------------------------------------
 # c13.sanitize
 # --------------------------------------------------------------------------
 
@@ -837,7 +962,22 @@ def _mutate(rng: random.Random, o: dict) -> Any:
 
 
 def _wrap(rng: random.Random, body: str) -> str:
-    k = rng.randrange(29)
+    k = rng.randrange(34)
+    if k == 29:   # reasoning scratchpads / XML-ish wrappers in front of (or around) an otherwise fine payload
+        pre = rng.choice(["<think>let me think</think>", "<think>\nsteps\n</think>\n\n", "<THINK>x</THINK>\n", "<think></think>",
+                          " \n<think>a</think> ", "<thought>x</thought>", "<!-- note -->", "<reasoning>r</reasoning>\n",
+                          "<|assistant|>", "<think>unterminated "])
+        return pre + (body if rng.random() < 0.6 else "```json\n" + body + "\n```")
+    if k == 30:
+        w = rng.choice([("<answer>", "</answer>"), ("<json>", "</json>"), ("<response>\n", "\n</response>"), ("", "<think>after</think>"),
+                        ("<think>a</think><think>b</think>", "")])
+        return w[0] + body + w[1]
+    if k == 31:   # raw far over the size limit, the payload itself small
+        return "<think>" + "x" * rng.choice([19990, 20001, 25000]) + "</think>" + body
+    if k == 32:
+        return rng.choice(["\ufeff", "\ufeff\n", "\u200b", "\ufeff<think>t</think>"]) + body
+    if k == 33:
+        return rng.choice(["Sure! Here is the plan:\n", "Plan: "]) + body + rng.choice(["", "\nHope that helps."])
     if k == 26:
         return rng.choice(["Here is the plan:\n", "Sure! ", "x"]) + "```json\n" + body + "\n```"
     if k == 27:
@@ -1041,16 +1181,33 @@ class SanitizeComp(Component):
         return {"raised": None, "res": res, "candidate": None if cand is None else cps(cand), "pwl": pwl,
                 "payload": payload if ok is True else None}
 
+    ENTRY_POINTS = ("policy.plan_with_llm", "legacy.plan_with_llm", "policy.run_policy")
+
     def _plan_with_llm(self, text):
+        """Every caller of the sanitiser, driven with a stub adapter that returns `text` verbatim:
+        `policy.plan_with_llm`, its facade `legacy.plan_with_llm`, and `policy.run_policy` (handle "llm")."""
         from clematis.engine.stages.t3 import policy as P
+        from clematis.engine.stages.t3 import legacy as Lg
         saved = P._get_llm_adapter_from_cfg
         P._get_llm_adapter_from_cfg = lambda cfg: SNS(generate=lambda prompt, max_tokens=0, temperature=0.0: SNS(text=text))
+        cfg = {"t3": {"backend": "llm", "llm": {}}}
+        outs = {}
         try:
-            st = SNS(logs=[])
-            out = P.plan_with_llm(SNS(turn_id=1, agent_id="A", cfg={}), st, {"t3": {"backend": "llm", "llm": {}}})
-            return {"raised": None, "out": out}
-        except Exception as e:
-            return {"raised": type(e).__name__}
+            for name in self.ENTRY_POINTS:
+                ctx = SNS(turn_id=1, agent_id="A", cfg={})
+                st = SNS(logs=[])
+                try:
+                    if name == "policy.plan_with_llm":
+                        out = P.plan_with_llm(ctx, st, cfg)
+                    elif name == "legacy.plan_with_llm":
+                        out = Lg.plan_with_llm(ctx, st, cfg)
+                    else:
+                        out = P.run_policy({"name": "llm", "meta": {}}, {}, cfg, ctx, state=st)
+                    outs[name] = {"raised": None, "out": out}
+                except Exception as e:  # noqa: BLE001
+                    outs[name] = {"raised": type(e).__name__}
+            first = outs[self.ENTRY_POINTS[0]]
+            return {"raised": first.get("raised"), "out": first.get("out"), "all": outs}
         finally:
             P._get_llm_adapter_from_cfg = saved
 
@@ -1124,6 +1281,24 @@ class SanitizeComp(Component):
             else:
                 okp = isinstance(out, dict) and out.get("plan") == [] and str(out.get("rationale", "")).startswith("fallback")
             res.append(("plan_with_llm_consistent", okp, f"plan_with_llm returned {out!r}"[:200]))
+        accepted = r.get("ok") is True and "plan" in r
+        for name, eo in (p.get("all") or {}).items():
+            if eo.get("raised") is not None:
+                res.append(("entry_point_never_raises", False, f"{name} raised {eo['raised']}"))
+                continue
+            out = eo.get("out")
+            fell_back = (isinstance(out, dict) and out.get("plan") == []
+                         and (str(out.get("rationale", "")).startswith("fallback") or out.get("rationale", "") == ""
+                              and name.endswith("run_policy") and not accepted))
+            if accepted:
+                pl = io["payload"]
+                same = isinstance(out, dict) and out.get("plan") == pl["plan"] and out.get("rationale") == pl["rationale"]
+                res.append(("entry_point_agrees_with_sanitiser", same, f"{name} returned {out!r} for an accepted raw"[:200]))
+            else:
+                # the sanitiser's verdict on the SAME raw string is the oracle: rejected raw => the caller must fall back
+                res.append(("entry_point_accepts_only_sanitised", fell_back,
+                            f"{name} accepted a raw string ({len(self._text(case)) if isinstance(self._text(case), str) else 'non-str'} chars) "
+                            f"that parse_and_validate rejects: {out!r}"[:240]))
         return res
 
     def tags(self, case, io):
@@ -1193,12 +1368,17 @@ class TurnComp(Component):
     scratch: Optional[str] = None
 
     def gen(self, rng, i):
-        return {"max_rag_loops": rng.choice([0, 1, 1, 1, 2, 3, -1]), "t3_enabled": rng.random() < 0.9,
+        c = {"max_rag_loops": rng.choice([0, 1, 1, 1, 2, 3, -1]), "t3_enabled": rng.random() < 0.9,
                 "dry_run": rng.random() < 0.1, "cache": rng.choice(["off", "real", "miss", "hit", "hit"]),
                 "ops_cap": rng.choice([0, 1, 2, 3, 8]),
                 "plan": rng.choice(["real", "real", "real", "no_rr", "multi_rr", "rr_first", "two_rr_other"]),
                 "text": rng.choice(["hello", "what is up", ""]), "tokens": rng.choice([1, 2, 3, 4, 5, 256]),
                 "style": rng.choice(["", "", "calm", "two words"])}
+        if rng.random() < 0.4:
+            # LLM dialogue backend: a stub adapter emits text the utterance filter rewrites, at / around the budget
+            c = dict(c, llm_text=gen_leak_text(rng), plan="real", t3_enabled=True, dry_run=False, style=rng.choice(["", "", "calm"]))
+            c["tokens"] = max(1, boundary_budget(rng, c["llm_text"]))
+        return c
 
     def _hook_plan(self, kind):
         from clematis.engine.types import Plan
@@ -1267,10 +1447,23 @@ class TurnComp(Component):
 
         if real_speak is not None:
             core.speak = speak_rec
+        real_llm_speak = getattr(core, "llm_speak", None)
+
+        def llm_speak_rec(dialog_bundle, plan, adapter):
+            u, m = real_llm_speak(dialog_bundle, plan, adapter)
+            spoken.append(u)
+            return u, m
+
+        if real_llm_speak is not None:
+            core.llm_speak = llm_speak_rec
+        if case.get("llm_text") is not None:
+            cfg.t3["backend"] = "llm"
         try:
             ctx = SNS(turn_id=1, agent_id="AgentA", now_ms=12345, now="1970-01-01T00:00:12Z",
                       _dry_run_until_t4=bool(case["dry_run"]), cfg=cfg, config=cfg, style_prefix=case.get("style", ""))
             state: dict = {"memory_index": None}
+            if case.get("llm_text") is not None:
+                state["llm_adapter"] = _Adapter(case["llm_text"])
             pre = 0
             if case["cache"] in ("miss", "hit"):
                 state["_cache_mgr"] = _CacheMgr()
@@ -1287,6 +1480,8 @@ class TurnComp(Component):
         finally:
             if real_speak is not None:
                 core.speak = real_speak
+            if real_llm_speak is not None:
+                core.llm_speak = real_llm_speak
             for k, v in saved.items():
                 if had[k]:
                     setattr(orch, k, v)
@@ -1348,6 +1543,8 @@ class TurnComp(Component):
             t.add("cache_hit")
         if io["plan"] is None:
             t.add("no_t3")
+        if case.get("llm_text") is not None:
+            t.add("llm_backend")
         if (io["spoken"] or "").strip():
             t.add("line_at_budget" if io["line_tokens"] == self._budget(case, io) else "line_below_budget")
         elif io["spoken"] is not None:
@@ -1355,8 +1552,13 @@ class TurnComp(Component):
         return sorted(t)
 
 
-DELIB, RAG, SPEAK, SANITIZE, TURN = DelibComp(), RagComp(), SpeakComp(), SanitizeComp(), TurnComp()
-COMPONENTS = [DELIB, RAG, SPEAK, SANITIZE, TURN]
+DELIB, RAG, SPEAK, LINE, SANITIZE, TURN = DelibComp(), RagComp(), SpeakComp(), LineComp(), SanitizeComp(), TurnComp()
+COMPONENTS = [DELIB, RAG, SPEAK, LINE, SANITIZE, TURN]
+
+
+def REPO_PATH():
+    from harness.core import REPO
+    return REPO
 
 
 def _prechecks(ctx: Ctx) -> None:
@@ -1378,7 +1580,27 @@ def _prechecks(ctx: Ctx) -> None:
     laws = run_driver([{"c": "c13.floatlaws", "vals": [f2b(x) for x in fv]}])[0].get("ok")
     if laws is not True:
         ctx.proof_break(f"Float does not satisfy the LawfulPyOrd laws on the probe grid: {laws}")
-    ctx.extra["prechecks"] = {"isspace_codepoints": len(ws), "lower_ascii_collisions": len(bad),
+    # the regex facts the turn-line theorem takes from the table (`Clem.Gen.UtterRules`): sampled matches of every rule's
+    # pattern (verified with `re`) have at least the tokens of the table's minimal match and do not start with whitespace
+    from harness.lib import rxgen
+    from harness.tables.utterrules import read_rules
+    import re as _re
+    rrng = ctx.rng_for("utterrules")
+    nsamp = 0
+    try:
+        for tag, src, fl, repl in read_rules(REPO_PATH()):
+            pat = _re.compile(src, fl)
+            mn = len(rxgen.minimal(src, fl).split())
+            for _ in range(200):
+                g = rxgen.gen(src, fl, rrng)
+                if pat.fullmatch(g):
+                    nsamp += 1
+                    if len(g.split()) < mn or g[:1].isspace():
+                        ctx.proof_break(f"utterance rule {tag}: sampled match {g!r} has fewer tokens than the table's minimal match ({mn}) or starts with whitespace")
+                        break
+    except Exception as e:  # the table generator reports the same condition as a translator error
+        ctx.note(f"utterance rules could not be sampled: {type(e).__name__}: {e}"[:200])
+    ctx.extra["prechecks"] = {"utter_rule_match_samples": nsamp,"isspace_codepoints": len(ws), "lower_ascii_collisions": len(bad),
                               "float_law_triples": len(fv) ** 3, "float_laws_hold": laws is True}
 
 
